@@ -431,6 +431,36 @@ pub async fn run(out: &mut Out) {
         }
     }
 
+    // ---- G. Fragments<Frame> (fallible decoder): an undecodable completed set must not block a later frame
+    // reusing the id; random datagram sequences with the real RPFM frame type
+    {
+        use super::codec::{op_rfr, rpfm_bytes, v4};
+        let good = rpfm_bytes(9, &Some(v4(0x01020304, 53)), b"hello world");
+        let n = if thorough { 2000 } else { 300 };
+        for i in 0..n {
+            let cut = 1 + rng.below(good.len() - 1);
+            let id = (rng.next() & 0xffff) as u16;
+            let idb = id.to_be_bytes();
+            let mut dgrams = vec![];
+            if i % 2 == 0 {
+                // garbage set completes first
+                dgrams.push([&idb[..], &[2, 0], &rng.bytes(3)[..]].concat());
+                dgrams.push([&idb[..], &[2, 1], &rng.bytes(2)[..]].concat());
+            }
+            let mut g = vec![[&idb[..], &[2, 0], &good[..cut]].concat(), [&idb[..], &[2, 1], &good[cut..]].concat()];
+            if rng.chance(1, 2) {
+                g.reverse();
+            }
+            dgrams.extend(g);
+            let (case, imp) = op_rfr(&dgrams);
+            out.case(&case, &imp);
+            out.stat("rfr_frame_sessions");
+            if !imp.ends_with("b=68656c6c6f20776f726c64]") {
+                out.oracle_fail("frame-lost-after-undecodable", &format!("well-formed frame not delivered: {}", imp));
+            }
+        }
+    }
+
     // ---- E. real-time timer scenarios (timeout 300 ms, clock steps of 200 ms)
     {
         let reps = if thorough { 6 } else { 2 };
